@@ -146,6 +146,9 @@ def gStep? (s : String) : Option GStep :=
   | ["a", "sy", q] => do some (.arrive (.sys .cc (← q.toNat?) 0))
   | ["a", "os"] => some (.arrive .oso)
   | ["p", m] => do some (.persist (← m.toNat?))
+  -- `u:U` = SetVbUUID(U), the open-stream callback of a (re-)opened stream: the vbUUID of later offsets changes, the persisted
+  -- threshold does NOT (it never decreases: `threshold_monotone`); for the gate this is the identity = `persist 0` (`setPersist_zero`)
+  | ["u", u] => do let _ ← u.toNat?; some (.persist 0)
   | ["c"] => some .close
   | _ => none
 
